@@ -31,12 +31,15 @@ func (c15) ID() string    { return "C15" }
 func (c15) RunFn() string { return "run_C15" }
 func (c15) Workers() int  { return 8 }
 func (c15) Rule() string {
-	return "every string of length <= 4 over {a @ / space \" U+00A0} (1555, exhaustive) + random (40% well-formed [l@]d[/r] built from triples over the accepted classes incl. non-ASCII and astral, resource with '/' '@' spaces; 30% built malformed: empty, empty local, empty domain, every Unicode space and every forbidden character at a random position of local part or domain; 30% unstructured strings over ASCII, all rejected characters, all Unicode spaces, non-ASCII, astral); valid UTF-8 only; distinct = distinct input string; non-trivial = at least 3 code points and at least one '@' or '/'"
+	return "every string of length <= 4 over {a @ / space \" & U+00A0} (2801, exhaustive) + random (40% well-formed [l@]d[/r] built from triples over the accepted classes incl. non-ASCII and astral, resource with '/' '@' spaces; 30% built malformed: empty, empty local, empty domain, every Unicode space and every forbidden character (local part: the eight of RFC 7622 3.3.1; domain: @ / ' \" < > &) at a random position of local part or domain; 30% unstructured strings over ASCII, all rejected characters, all Unicode spaces, non-ASCII, astral); valid UTF-8 only; strings with a '/' before the first '@' are run but projected to a constant on both sides (outside the property); distinct = distinct input string; non-trivial = at least 3 code points and at least one '@' or '/'"
 }
 
 // ---- the property's character classes, written independently of /repo ----
-const c15LocalForbidden = "@/'\":<>"
-const c15DomainForbidden = "@/"
+// local part: the eight characters RFC 7622 section 3.3.1 forbids in a localpart;
+// domain: the two separators and the five characters special in XML (no IP literal
+// or IDNA name contains any of them; ':' is legal: IPv6 literals).
+const c15LocalForbidden = "\"&'/:<>@"
+const c15DomainForbidden = "\"&'/<>@"
 
 func c15LocalOK(c rune) bool {
 	return !unicode.IsSpace(c) && !strings.ContainsRune(c15LocalForbidden, c)
@@ -191,7 +194,7 @@ func (c15) Gen(r *rand.Rand, tier string) []interface{} {
 	}
 	var out []interface{}
 	// exhaustive: every string of length <= 4 over this alphabet
-	alpha := []string{"a", "@", "/", " ", "\"", "\u00a0"}
+	alpha := []string{"a", "@", "/", " ", "\"", "&", "\u00a0"}
 	level := []string{""}
 	for l := 0; l <= 4; l++ {
 		for _, s := range level {
@@ -206,7 +209,8 @@ func (c15) Gen(r *rand.Rand, tier string) []interface{} {
 		level = next
 	}
 	// fixed: the cases of the repository's own tests and of finding D4
-	for _, s := range []string{"d/r", "example.org/res/a b", "test@domain.com/my resource", "test@domain.com/a/b@c", "domain.com", "test@domain.com@otherdomain.com", "test@domain com/resource", "test@/r", "te:st@domain.com"} {
+	for _, s := range []string{"d/r", "example.org/res/a b", "test@domain.com/my resource", "test@domain.com/a/b@c", "domain.com", "test@domain.com@otherdomain.com", "test@domain com/resource", "test@/r", "te:st@domain.com",
+		"us&er@example.org", "user@exa'mple.org/res", "user@a&b.org", "user@x'><auth><a.b='/res", "[::1]", "u@[2001:db8::1]/r"} {
 		out = append(out, c15In{S: s, Kind: "raw"})
 	}
 	for i := 0; i < n; i++ {
@@ -241,7 +245,11 @@ func (c15) Gen(r *rand.Rand, tier string) []interface{} {
 				tail = "/" + res
 			}
 			in := c15In{Kind: "bad"}
-			switch r.Intn(8) {
+			switch r.Intn(10) {
+			case 8: // a character special in XML in the domain, with a local part
+				in.Form, in.S = "bad-domain", l+"@"+c15Insert(r, d, rune("'\"<>&"[r.Intn(5)]))+tail
+			case 9: // the same in a bare domain
+				in.Form, in.S = "bad-domain", c15Insert(r, d, rune("'\"<>&"[r.Intn(5)]))+tail
 			case 0:
 				in.Form, in.S = "empty-local", "@"+c15Str(r, 0, 8, nil)
 			case 1:
@@ -251,7 +259,7 @@ func (c15) Gen(r *rand.Rand, tier string) []interface{} {
 			case 3: // a space in the local part
 				in.Form, in.S = "bad-local", c15Insert(r, l, c15Spaces[r.Intn(len(c15Spaces))])+"@"+d+tail
 			case 4: // a forbidden character in the local part ('@' and '/' cannot be "in" it)
-				in.Form, in.S = "bad-local", c15Insert(r, l, rune("'\":<>"[r.Intn(5)]))+"@"+d+tail
+				in.Form, in.S = "bad-local", c15Insert(r, l, rune("'\":<>&"[r.Intn(6)]))+"@"+d+tail
 			case 5: // a space in the domain, with a local part
 				in.Form, in.S = "bad-domain", l+"@"+c15Insert(r, d, c15Spaces[r.Intn(len(c15Spaces))])+tail
 			case 6: // a second '@', in the domain
@@ -302,6 +310,14 @@ func c15Res(j *stanza.Jid, err error) Sx {
 func (c15) Run(inp interface{}) Sx {
 	in := inp.(c15In)
 	j, err := stanza.NewJid(in.S)
+	if c15SlashBeforeAt(in.S) {
+		// outside the property (RFC 7622 and the library legitimately differ): the code is
+		// run (a panic would still be seen) but nothing is observed
+		if err == nil && j != nil {
+			_, _ = j.Full(), j.Bare()
+		}
+		return L(Z(2))
+	}
 	if err != nil {
 		return L(Z(0)) // the partially filled Jid returned with an error is not observed
 	}
@@ -326,6 +342,9 @@ func sxStr(x Sx) string {
 
 func (c15) Oracle(inp interface{}, obs Sx) (string, string) {
 	in := inp.(c15In)
+	if len(obs.L) == 1 && obs.L[0].Z == 2 && c15SlashBeforeAt(in.S) {
+		return "", "" // outside the property
+	}
 	if len(obs.L) == 0 || (obs.L[0].Z != 0 && obs.L[0].Z != 1) || (obs.L[0].Z == 1 && len(obs.L) != 8) {
 		return "unexpected observation shape", "shape"
 	}
